@@ -28,12 +28,59 @@ def classify_exception(exc):
     return ("crash", type(exc).__name__, innermost_problog_frame(exc))
 
 
+_DSHARP_CACHE = {}
+_DSHARP_STATS = {"hit": 0, "miss": 0}
+
+
+def install_dsharp_cache():
+    """Memoise the external `dsharp` process per worker: it is a deterministic function of its
+    command-line flags and of the DIMACS file it is given.  Everything on the Python side
+    (CNF construction, to_dimacs, _load_nnf, evaluation) still runs for every case; only the
+    subprocess is skipped when the same (flags, file content) was compiled before.  Disabled with
+    VERIF_NO_DSHARP_CACHE=1 (C10 always calls the real compiler)."""
+    if os.environ.get("VERIF_NO_DSHARP_CACHE"):
+        return
+    import problog.ddnnf_formula as D
+
+    if getattr(D, "_vf_cache_installed", False):
+        return
+    real = D.subprocess_check_call
+
+    def cached(cmd, *a, **kw):
+        try:
+            if os.path.basename(cmd[0]).startswith("dsharp") and "-Fnnf" in cmd:
+                nnf_file = cmd[cmd.index("-Fnnf") + 1]
+                cnf_file = cmd[-1]
+                flags = tuple(c for c in cmd[1:] if c not in (nnf_file, cnf_file))
+                with open(cnf_file) as f:
+                    key = (flags, f.read())
+                if key in _DSHARP_CACHE:
+                    _DSHARP_STATS["hit"] += 1
+                    with open(nnf_file, "w") as f:
+                        f.write(_DSHARP_CACHE[key])
+                    return 0
+                r = real(cmd, *a, **kw)
+                _DSHARP_STATS["miss"] += 1
+                with open(nnf_file) as f:
+                    if len(_DSHARP_CACHE) > 20000:
+                        _DSHARP_CACHE.clear()
+                    _DSHARP_CACHE[key] = f.read()
+                return r
+        except (ValueError, IndexError, OSError):
+            pass
+        return real(cmd, *a, **kw)
+
+    D.subprocess_check_call = cached
+    D._vf_cache_installed = True
+
+
 def infer(src, timeout=10, evaluatable=None, semiring=None, engine_factory=None, **kw):
     """Default pipeline (what `problog file.pl` does): parse, ground, compile, evaluate.
     Returns ("ok", {str(query): prob}) | ("error", cls) | ("crash", cls, site) | ("timeout",)"""
     from problog.program import PrologString
     from problog import get_evaluatable
 
+    install_dsharp_cache()
     try:
         with watchdog(timeout):
             model = PrologString(src)
@@ -115,3 +162,45 @@ class BuiltinHarness(object):
         except Exception as exc:  # noqa
             return classify_exception(exc)
         return self.query_term(t, timeout)
+
+
+GROUND_ONLY_OPTIONS = ("label_all", "avoid_name_clash", "keep_order", "keep_all", "keep_duplicates", "hide_builtins")
+
+
+def infer_cli(src, options=None, timeout=10, knowledge=None):
+    """Inference with ground/evaluate options given as a dict.  Options of the probability CLI
+    (propagate_evidence, propagate_weights, logspace, unbuffered, ...) are passed through the whole
+    pipeline exactly as problog/tasks/probability.py:execute does.  Options that only the ground CLI
+    and LogicFormula.create_from expose (label_all, avoid_name_clash, keep_order, keep_all,
+    keep_duplicates, hide_builtins) are given to LogicFormula.create_from as problog/tasks/ground.py
+    does, and the resulting ground program is then compiled and evaluated."""
+    from problog.program import PrologString
+    from problog import get_evaluatable
+    from problog.engine import DefaultEngine
+    from problog.formula import LogicFormula
+    from problog.evaluator import SemiringLogProbability, SemiringProbability
+
+    install_dsharp_cache()
+    opts = dict(options or {})
+    try:
+        with watchdog(timeout):
+            semiring = SemiringLogProbability() if opts.pop("logspace", False) else None
+            if opts.pop("propagate_weights", False):
+                opts["propagate_weights"] = semiring or SemiringProbability()
+            gopts = {k: opts.pop(k) for k in list(opts) if k in GROUND_ONLY_OPTIONS}
+            engine = DefaultEngine(**opts)
+            db = engine.prepare(PrologString(src))
+            kc = get_evaluatable(knowledge, semiring=semiring)
+            if gopts:
+                gp = LogicFormula.create_from(db, engine=engine, database=db, **dict(opts, **gopts))
+                formula = kc.create_from(gp, **opts)
+            else:
+                formula = kc.create_from(db, engine=engine, database=db, **opts)
+            res = formula.evaluate(semiring=semiring, **opts)
+            return ("ok", {str(k): v for k, v in res.items()})
+    except WatchdogTimeout:
+        return ("timeout",)
+    except RecursionError:
+        return ("recursion",)
+    except Exception as exc:  # noqa
+        return classify_exception(exc)
